@@ -1,8 +1,8 @@
 #!/bin/sh
-# usage: coqshow.sh <file.v> <line>  — shows the proof state just before <line>
+# usage: coqshow.sh <file.v> <line> [tailN] [headN] — shows the proof state just before <line>
 f=$1; n=$2
 d=$(mktemp -d)
 head -n $((n-1)) "$f" > $d/T.v
 echo "Show. " >> $d/T.v
-(cd $d && timeout 120 coqc -Q /verif/coq/theories Cell2V T.v 2>&1 | tail -${3:-40})
+(cd $d && timeout 120 coqc -Q /verif/coq/theories Cell2V T.v 2>&1 | tail -${3:-40} | head -${4:-1000})
 rm -rf $d
